@@ -11,9 +11,9 @@ import (
 )
 
 type frameItem struct {
-	whole string   // heap key covered completely
-	key   string   // heap key of a single location
-	ref   string   // the location's reference
+	whole string // heap key covered completely
+	key   string // heap key of a single location
+	ref   string // the location's reference
 }
 
 func (v *FnVC) frameItems() (items []frameItem, all bool) {
